@@ -624,6 +624,15 @@ func (q *workQueue) locked(fn func(st *qState, jobs *os.File)) {
 	}
 }
 
+// AbortQueue marks the work queue in dir (if there is one) as aborted.
+func AbortQueue(dir string) {
+	if _, err := os.Stat(dir); err != nil {
+		return
+	}
+	defer func() { recover() }()
+	(&workQueue{dir: dir}).abort()
+}
+
 // hungry reports whether some worker is waiting while the queue is empty.
 func (q *workQueue) hungry() (h bool) {
 	q.locked(func(st *qState, jf *os.File) {
